@@ -74,6 +74,22 @@ class Link(object):
             while n < len(data):
                 n += os.write(self.peer_fd, data[n:])
 
+    def peer_write_nowait(self, data):
+        if self.peer_sock is not None:
+            self.peer_sock.sendall(data)
+        else:
+            n = 0
+            while n < len(data):
+                n += os.write(self.peer_fd, data[n:])
+
+    def peer_close_nowait(self):
+        self.closed_peer = True
+        if self.peer_sock is not None:
+            self.peer_sock.shutdown(socket.SHUT_WR)
+        else:
+            os.close(self.peer_fd)
+            self.peer_fd = None
+
     def peer_close(self):
         if self.closed_peer:
             return
